@@ -312,6 +312,66 @@ def generate_case(rnd, D, k):
     return kind, out
 
 
+def highdim_case(rnd, D, k):
+    """Many dimensions and parameter values far from one: products of a hundred factors leave the range of binary64, sums of
+    their logarithms do not.  misfit at the columns generate() itself produces must be the closed-form -log density."""
+    d = rnd.choice([60, 100, 150])
+    kind = ["logspace", "normal_vec", "laplace", "normal_full", "normal_scalar"][k % 5]
+    out = []
+    rng = numpy.random.default_rng(500 + k)
+    scale = rnd.choice([3.5, -3.5, 0.0])
+    mu = distgen.col([scale + distgen.dy(rnd, -1, 1) for _ in range(d)])
+    if kind == "logspace":
+        var = distgen.col([rnd.choice([0.01, 0.04, 0.25]) for _ in range(d)])
+        inner = D.Normal(mu.copy(), var.copy())
+        base = rnd.choice([10.0, math.e, 2.0])
+        obj = D.TransformToLogSpace(inner, base=base)
+        s = numpy.asarray(obj.generate(4, rng), dtype=float)
+        ref = lambda m: float(inner.misfit(numpy.log(m) / math.log(base))) + float(numpy.sum(numpy.log(m) + math.log(math.log(base))))
+        desc = f"TransformToLogSpace(Normal, base={base}) in {d} dimensions, values around {base}^{scale}"
+    elif kind == "normal_vec":
+        var = distgen.col([rnd.choice([1e-6, 4e-6, 1e-4]) if scale else rnd.choice([1e6, 4e6]) for _ in range(d)])
+        obj = D.Normal(mu.copy(), var.copy())
+        obj.normalize()
+        s = numpy.asarray(obj.generate(4, rng=rng), dtype=float)
+        ref = lambda m: float(numpy.sum(0.5 * numpy.log(2 * numpy.pi * var) + (m - mu) ** 2 / (2 * var)))
+        desc = f"normalised Normal in {d} dimensions, variances around {float(var[0, 0])}"
+    elif kind == "normal_scalar":
+        v = rnd.choice([1e-6, 1e-4]) if scale else rnd.choice([1e6, 4e6])
+        obj = D.Normal(mu.copy(), v)
+        obj.normalize()
+        s = numpy.asarray(obj.generate(4, rng=rng), dtype=float)
+        ref = lambda m: float(d * 0.5 * math.log(2 * math.pi * v) + numpy.sum((m - mu) ** 2) / (2 * v))
+        desc = f"normalised Normal in {d} dimensions, one variance {v} for all"
+    elif kind == "normal_full":
+        v = rnd.choice([1e-6, 1e-4]) if scale else rnd.choice([1e6, 4e6])
+        a = numpy.array([[rnd.randint(-4, 4) / 8.0 for _ in range(3)] for _ in range(d)])
+        cov = v * (numpy.eye(d) + 0.5 * a @ a.T)
+        obj = D.Normal(mu.copy(), cov.copy())
+        obj.normalize()
+        s = numpy.asarray(obj.generate(4, rng=rng), dtype=float)
+        ev = numpy.linalg.eigvalsh(cov)
+        ref = lambda m: float(0.5 * numpy.sum(numpy.log(2 * numpy.pi * ev)) + 0.5 * ((m - mu).T @ numpy.linalg.solve(cov, m - mu)).item())
+        desc = f"normalised Normal in {d} dimensions, full covariance of scale {v}"
+    else:
+        b = distgen.col([rnd.choice([1e-4, 2e-4]) if scale else rnd.choice([1e4, 3e4]) for _ in range(d)])
+        obj = D.Laplace(mu.copy(), b.copy())
+        obj.normalize()
+        s = numpy.asarray(obj.generate(4, rng=rng), dtype=float)
+        ref = lambda m: float(numpy.sum(numpy.log(2 * b) + numpy.abs(m - mu) / b))
+        desc = f"normalised Laplace in {d} dimensions, dispersions around {float(b[0, 0])}"
+    if s.shape != (d, 4):
+        return [(f"generate-shape-highdim-{kind}", f"{desc}: generate(4) has shape {s.shape}")]
+    for j in range(4):
+        m = s[:, j:j + 1]
+        with numpy.errstate(all="ignore"):
+            got, want = float(obj.misfit(m.copy())), ref(m)
+        if not (math.isfinite(got) and abs(got - want) <= 1e-9 * max(1.0, abs(want))):
+            out.append((f"highdim-misfit-{kind}", f"{desc}: misfit at a column generate() produced is {got}, -log density is {want}"))
+            break
+    return out
+
+
 def moment_case(rnd, D, k):
     """large i.i.d. batch: mean and variance against the density's analytic moments (threshold 7 sigma)."""
     n = 40000
@@ -361,6 +421,10 @@ def run(tier, seed):
         dist["generate_kinds"][kind] = dist["generate_kinds"].get(kind, 0) + 1
         for key, what in probs:
             violations.append(Violation(key, what, {"generate_case": k, "kind": kind, "no_failing_input_found": key.startswith("generate-form-not-modelled")}))
+    for k in range(10 if tier == "quick" else 100):
+        dist["highdim_cases"] = dist.get("highdim_cases", 0) + 1
+        for key, what in highdim_case(rnd, D, k):
+            violations.append(Violation(key, what, {"highdim_case": k}))
     for k in range(6 if tier == "quick" else 60):
         dist["moment_cases"] += 1
         for key, what in moment_case(rnd, D, k):
@@ -379,7 +443,7 @@ def run(tier, seed):
         "evaluations": dist["pdf_cases"] + dist["generate_cases"] + dist["moment_cases"], "distinct_nontrivial": len(seen),
         "rule": "normalize() then misfit at a dyadic point for Normal (scalar / per-dimension / full covariance, exact rational determinant) and Laplace, enclosed by "
                 "Coq-Interval around -ln(textbook pdf) with the constant computed from its formula; generate(repeat, rng) of the 7 generating classes with a recording "
-                "generator (draw kinds, parameters, image, shape, determinism); a few 40000-draw moment batches; every pdf case counts as non-trivial",
+                "generator (draw kinds, parameters, image, shape, determinism); misfit at generated columns in 60-150 dimensions with parameters far from one (log-space transform, Normal in its three encodings, Laplace); a few 40000-draw moment batches; every pdf case counts as non-trivial",
         "samples": samples, "violations": violations,
         "traces_validated_against_impl": dist["pdf_cases"] - len(failing),
         "coverage": {"distribution": dist, "interval_goals_failed": len(failing)},
